@@ -136,6 +136,20 @@ func corpus(g *gen) {
 	each(cfgSpec{epH: L("Content-Type", "Content-Length", "X-A"), epQ: L("query", "a"), bes: []beSpec{{gql: "get", gqlVar: 3}, {gql: "post", gqlVar: 1, h: L("")}, {h: L("X-A")}}},
 		reqSpec{lines: P("X-A", "1", "Content-Type", "text/plain"), query: P("a", "1", "query", "{evil}")})
 	each(cfgSpec{bes: []beSpec{{gql: "post"}}}, reqSpec{lines: P("Content-Type", "text/plain", "X-A", "1"), query: P("query", "{evil}")})
+	// a malformed piece anywhere in the client's query text (bad escape, semicolon) - listed or not -
+	// does not keep the allowed and present parameters from the backend
+	for _, junk := range [][]string{{"b=%ZZ"}, {"zz=1;y=2"}, {"%zz=1", "a=%4"}, {"x=1;", "%"}} {
+		each(cfgSpec{epQ: L("a", "b"), bes: []beSpec{{}, {q: L("a")}}},
+			reqSpec{query: P("a", "1", "b", "2", "c", "3"), junk: junk},
+			reqSpec{query: P("a", "1"), junk: junk[:1]})
+		each(cfgSpec{epQ: L("*"), bes: []beSpec{{q: L("a", "c"), static: "s=1"}}},
+			reqSpec{query: P("a", "1", "a", "", "c", "x y"), junk: junk})
+	}
+	// the query written in url_pattern reaches the backend as written: repeated slashes, an URL as a value
+	for _, st := range []string{"assets=//cdn.example.com/static", "prefix=a//b///c", "u=http://h.example//x", "p=/&q=//&r=:///"} {
+		each(cfgSpec{epQ: L("a"), bes: []beSpec{{static: st}, {static: st, q: L("a")}}},
+			reqSpec{query: P("a", "//v//")})
+	}
 	// static query shares a key with a forwarded parameter; reserved characters; empty values
 	each(cfgSpec{epQ: L("a", "k&=", "e"), bes: []beSpec{{static: "a=0&s=x+y&a=%26"}}},
 		reqSpec{query: P("a", "1", "k&=", "v&=?#", "e", "", "e", "", "a", " 2")})
@@ -282,7 +296,7 @@ var headerPool = []string{"X-A", "X-B", "X-C", "Cookie", "Authorization", "Conte
 var headerValues = []string{"v1", "v2", "a, b", "text/plain", "Mozilla/5.0 (X11)", "1.2.3.4", "", "k=v; x=y", "\xc3\xa9t\xc3\xa9", "*"}
 var queryKeys = []string{"query", "variables", "operationName", "a", "b", "c", "A", "id", "q", "x y", "k&=", "\xc3\xa4", "*", "", "a.b", "X-A", "a*", " ", ""}
 var queryValues = []string{"1", "2", "", "x y", "a&b=c", "%41", "\xc3\xbc", "+", "v", "#?/"}
-var statics = []string{"", "", "", "s=1", "a=0", "a=0&s=1&a=9", "x+y=1%262", "*=7", "b=&c"}
+var statics = []string{"", "", "", "s=1", "a=0", "a=0&s=1&a=9", "x+y=1%262", "*=7", "b=&c", "assets=//cdn.example.com/x", "p=a//b&u=http://h//y"}
 
 func randCase(r *rng.R, s string) string {
 	b := []byte(s)
@@ -373,6 +387,9 @@ func randReq(r *rng.R, cs cfgSpec) reqSpec {
 		if r.Chance(1, 4) {
 			rq.query = append(rq.query, [2]string{k, queryValues[r.Intn(len(queryValues))]})
 		}
+	}
+	if r.Chance(1, 6) {
+		rq.junk = [][]string{{"b=%ZZ"}, {"zz=1;y=2"}, {"%zz=1", "a=%4"}, {"a=1;"}, {"%"}}[r.Intn(5)]
 	}
 	rq.host = []string{"gw.example", "gw.example:8080", "127.0.0.1:9000", "GW.Example"}[r.Intn(4)]
 	if cs.method == "POST" {
